@@ -1,4 +1,5 @@
 import TongoProofs.Lemmas.ClientSM
+import TongoProofs.Lemmas.ClientLive
 /-! Property C12 — concurrent lite-client requests each receive their own answer.
 
 Property theorems only (invariants and their preservation proofs: `TongoProofs/Lemmas/ClientSM.lean`). They are about
@@ -183,12 +184,12 @@ theorem no_leak_model (s : State) (h : Reachable idOf nConn s) (ids : List Id) (
 
 /-! ## connection status machine -/
 
-/-- `Send` on a connection that is not `Connected` fails and writes nothing. -/
+/-- `Send` on a connection that is not `Connected` (mutex free) fails, writes nothing and does not keep the mutex. -/
 theorem status_machine_send_fails (s : State) (k c : Nat) (hp : s.pc k = .picked c)
-    (hs : (s.conn c).status = .connecting) :
-    ∃ s', step idOf nConn s (.send k) = some s' ∧ s'.pc k = .returning .sendErr ∧ s'.wire = s.wire ∧
+    (hs : (s.conn c).status = .connecting) (hm : (s.conn c).writer = none) :
+    ∃ s', step idOf nConn s (.sendBegin k) = some s' ∧ s'.pc k = .returning .sendErr ∧ s'.wire = s.wire ∧
       s'.conn = s.conn := by
-  simp [step, hp, hs]
+  simp [step, hp, hs, hm]
 
 /-- At most one reconnect loop per connection, and it runs exactly while the status is `Connecting` (the guard
 `status == Connecting` at the top of `reconnect`). -/
@@ -196,12 +197,15 @@ theorem status_machine (s : State) (h : Reachable idOf nConn s) (c : Nat) :
     (s.conn c).loops ≤ 1 ∧ ((s.conn c).status = .connecting ↔ (s.conn c).loops = 1) :=
   (inv_reachable idOf nConn h).g c
 
-/-- After a drop: a `Send` on a `Connected` connection whose socket is dead fails and spawns a reconnect; its first
-step starts THE loop (status `Connecting`, one loop); any further spawned reconnect is a no-op; the loop can complete,
-after which the connection is `Connected` with a live socket and a reader. -/
+/-- After a drop: a `Send` on a `Connected` connection whose socket is dead takes the mutex, its write fails, it
+spawns a reconnect and releases the mutex; the reconnect's first step starts THE loop (status `Connecting`, one loop);
+any further spawned reconnect is a no-op; the loop can complete, after which the connection is `Connected` with a live
+socket and a reader. -/
 theorem status_machine_drop_reconnects (s : State) (h : Reachable idOf nConn s) (k c : Nat)
-    (hp : s.pc k = .picked c) (hs : (s.conn c).status = .connected) (hd : (s.conn c).sockOk = false) :
-    ∃ s1 s2 s3, step idOf nConn s (.send k) = some s1 ∧ s1.pc k = .returning .sendErr ∧
+    (hp : s.pc k = .picked c) (hs : (s.conn c).status = .connected) (hd : (s.conn c).sockOk = false)
+    (hm : (s.conn c).writer = none) :
+    ∃ s0 s1 s2 s3, step idOf nConn s (.sendBegin k) = some s0 ∧ s0.pc k = .sending c ∧
+      step idOf nConn s0 (.writeFail k) = some s1 ∧ s1.pc k = .returning .sendErr ∧ (s1.conn c).writer = none ∧
       step idOf nConn s1 (.reconnectStart c) = some s2 ∧
       (s2.conn c).status = .connecting ∧ (s2.conn c).loops = 1 ∧
       (∀ s', step idOf nConn s2 (.reconnectStart c) = some s' → (s'.conn c).loops = 1) ∧
@@ -214,7 +218,7 @@ theorem status_machine_drop_reconnects (s : State) (h : Reachable idOf nConn s) 
       have := hg.2.mpr h'
       rw [hs] at this; cases this
     omega
-  simp [step, hp, hs, hd, reconnectBody, hl]
+  simp [step, hp, hs, hd, hm, reconnectBody, hl, set_apply]
 
 /-- Connection choice is round-robin: `pickConn` hands out the counter's value and advances it modulo the number of
 connections; no other action touches the counter. -/
@@ -223,41 +227,91 @@ theorem round_robin (s s' : State) (a : Action) (h : step idOf nConn s a = some 
     ((∀ k, a ≠ .pickConn k) → s'.nextConn = s.nextConn) := by
   cases a <;> simp only [step] at h <;> (repeat' split at h) <;> (try cases h) <;> simp [set_apply]
 
-/-! ## progress: no thread of the client is ever stuck -/
+/-! ## progress: who can be stuck, and on what
 
-/-- No deadlock on the client side. In every reachable state (1) every call that has not returned has an enabled action
-of its OWN goroutine that brings it strictly closer to returning (`Pc.rank` decreases; a waiting call can always take
-the timeout arm); (2) no action of anybody else ever moves a call backwards — so every call returns after at most five
-own steps, whatever the environment does; (3) a reader holding a value for a channel can always complete the send
-without blocking; (4) an idle reader accepts ANY packet. -/
-theorem no_deadlock_client (s : State) (h : Reachable idOf nConn s) :
+`Connection.Send` holds `Connection.mu` during the socket write, and the write has no deadline. The transition system
+models the mutex (`writer`) and a peer that does not read (`canWrite = false`). Consequences, all for REACHABLE states:
+a call is never stuck on the client's own account — the only obstacles are (a) the mutex held by another goroutine that
+is inside a write, and (b) a write blocked by the peer; the holder of the mutex never waits for another mutex, so there
+is no cycle of waiting inside the client. With a peer that does not drain, however, a call DOES outlive its deadline
+(`stalled_peer_outlives_deadline`, reproduced on the real client: known finding). -/
+
+/-- the environment assumption "the peers read": no write can block -/
+def PeersDrain (s : State) : Prop := ∀ c, (s.conn c).canWrite = true
+
+/-- No deadlock inside the client. In every reachable state:
+(1) every call that has not returned either has an enabled action of its OWN goroutine that brings it strictly closer
+to returning, or it waits for `Connection.mu` of its connection, which is held by a goroutine inside a write, or it is
+itself inside a write that the peer blocks (live socket, peer not reading);
+(2) no action of anybody ever moves a call backwards (`Pc.rank` never increases);
+(3) whoever holds a connection's mutex is inside a write on a `Connected` connection — it never waits for a mutex — and
+if the socket is dead or the peer reads, the action that ends the write is enabled;
+(4) a reader holding a value for a channel can always complete the send without blocking;
+(5) an idle reader accepts ANY packet. -/
+theorem no_deadlock_client (s : State) (h : Reachable idOf nConn s) (hn : 0 < nConn) :
     (∀ k, (∃ r, s.pc k = .returned r) ∨
-      ∃ a ∈ [Action.register k, .pickConn k, .send k, .timeout k, .unregister k], ∃ s',
-        step idOf nConn s a = some s' ∧ (s'.pc k).rank < (s.pc k).rank) ∧
+      (∃ a ∈ [Action.register k, .pickConn k, .sendBegin k, .writeDone k, .writeFail k, .timeout k, .unregister k],
+        ∃ s', step idOf nConn s a = some s' ∧ (s'.pc k).rank < (s.pc k).rank) ∨
+      (∃ c, s.pc k = .picked c ∧ (s.conn c).writer ≠ none) ∨
+      (∃ c, s.pc k = .sending c ∧ (s.conn c).sockOk = true ∧ (s.conn c).canWrite = false)) ∧
     (∀ a s' k, step idOf nConn s a = some s' → (s'.pc k).rank ≤ (s.pc k).rank) ∧
+    (∀ c, (s.conn c).writer ≠ none →
+      (s.conn c).status = .connected ∧
+      (∀ k, (s.conn c).writer = some (.call k) → s.pc k = .sending c) ∧
+      ((s.conn c).sockOk = false ∨ (s.conn c).canWrite = true →
+        (∀ k, (s.conn c).writer = some (.call k) →
+          (∃ s', step idOf nConn s (.writeDone k) = some s') ∨ (∃ s', step idOf nConn s (.writeFail k) = some s')) ∧
+        ((s.conn c).writer = some .ping → ∃ s', step idOf nConn s (.pingDone c) = some s'))) ∧
     (∀ c k v, (s.conn c).pending = some (k, v) →
       ∃ s', step idOf nConn s (.chanSend c) = some s' ∧ s'.readerBlocked = false ∧ (s'.conn c).pending = none) ∧
     (∀ c p, (s.conn c).reader = true → (s.conn c).pending = none → ∃ s', step idOf nConn s (.deliver c p) = some s') := by
   have hi := inv_reachable idOf nConn h
-  refine ⟨?_, ?_, ?_, ?_⟩
+  refine ⟨?_, ?_, ?_, ?_, ?_⟩
   · intro k
     cases hp : s.pc k with
-    | start => exact Or.inr ⟨.register k, by simp, by simp [step, hp, Pc.rank]⟩
-    | registered => exact Or.inr ⟨.pickConn k, by simp, by simp [step, hp, Pc.rank]⟩
+    | start => exact Or.inr (Or.inl ⟨.register k, by simp, by simp [step, hp, Pc.rank]⟩)
+    | registered => exact Or.inr (Or.inl ⟨.pickConn k, by simp, by simp [step, hp, hn, Pc.rank]⟩)
     | picked c =>
-      refine Or.inr ⟨.send k, by simp, ?_⟩
-      simp only [step, hp]
-      split
-      · exact ⟨_, rfl, by simp [Pc.rank]⟩
-      · split
-        · exact ⟨_, rfl, by simp [Pc.rank]⟩
-        · exact ⟨_, rfl, by simp [Pc.rank]⟩
-    | waiting => exact Or.inr ⟨.timeout k, by simp, by simp [step, hp, Pc.rank]⟩
-    | returning r => exact Or.inr ⟨.unregister k, by simp, by simp [step, hp, Pc.rank]⟩
+      by_cases hwr : (s.conn c).writer = none
+      · refine Or.inr (Or.inl ⟨.sendBegin k, by simp, ?_⟩)
+        simp only [step, hp, hwr]
+        by_cases hst : (s.conn c).status = .connected
+        · simp [hst, Pc.rank]
+        · simp [hst, Pc.rank]
+      · exact Or.inr (Or.inr (Or.inl ⟨c, rfl, hwr⟩))
+    | sending c =>
+      by_cases hok : (s.conn c).sockOk = true
+      · by_cases hcw : (s.conn c).canWrite = true
+        · exact Or.inr (Or.inl ⟨.writeDone k, by simp, by simp [step, hp, hok, hcw, Pc.rank]⟩)
+        · exact Or.inr (Or.inr (Or.inr ⟨c, rfl, hok, by simpa using hcw⟩))
+      · exact Or.inr (Or.inl ⟨.writeFail k, by simp, by simp [step, hp, hok, Pc.rank]⟩)
+    | waiting => exact Or.inr (Or.inl ⟨.timeout k, by simp, by simp [step, hp, Pc.rank]⟩)
+    | returning r => exact Or.inr (Or.inl ⟨.unregister k, by simp, by simp [step, hp, Pc.rank]⟩)
     | returned r => exact Or.inl ⟨r, rfl⟩
   · intro a s' k hs
     cases a <;> simp only [step] at hs <;> (repeat' split at hs) <;> (try cases hs) <;>
       (try simp only [set_apply]) <;> (try split) <;> simp_all [Pc.rank]
+  · intro c hwr
+    refine ⟨hi.w2 c hwr, fun k hk => (hi.w c k).mp hk, ?_⟩
+    intro hfree
+    refine ⟨?_, ?_⟩
+    · intro k hk
+      have hp := (hi.w c k).mp hk
+      by_cases hok : (s.conn c).sockOk = true
+      · have hcw : (s.conn c).canWrite = true := by
+          rcases hfree with h1 | h1
+          · rw [hok] at h1; cases h1
+          · exact h1
+        exact Or.inl (by simp [step, hp, hok, hcw])
+      · exact Or.inr (by simp [step, hp, hok])
+    · intro hk
+      by_cases hok : (s.conn c).sockOk = true
+      · have hcw : (s.conn c).canWrite = true := by
+          rcases hfree with h1 | h1
+          · rw [hok] at h1; cases h1
+          · exact h1
+        simp [step, hk, hok, hcw]
+      · simp [step, hk, hok]
   · intro c k v hp
     have hc := (hi.c c k v hp).1
     simp [step, hp, hc, hi.f]
@@ -270,58 +324,124 @@ theorem no_deadlock_client (s : State) (h : Reachable idOf nConn s) :
       | none => simp [hq]
       | some k => cases body <;> simp [hq]
 
-/-! ## reconnection: bounded recovery under explicit fairness assumptions
+/-- THE DEFECT, in the model: a peer that stops reading. After `peerStall`, a call that has entered `Send` holds the
+mutex inside a blocked write: none of its own actions is enabled — in particular not `timeout` (it is not in its
+`select`) — and a second call on the same connection cannot even begin its `Send`. Both outlive any deadline until the
+peer reads again (`peerDrain`) or the socket dies. Reachable, so no theorem "every call returns by its deadline" can hold
+without the assumption `PeersDrain`. The same history on the real client: `go.client.stalled` (known finding). -/
+theorem stalled_peer_outlives_deadline :
+    ∃ s, run (fun k => 100 + k) 1 init
+        [.register 0, .pickConn 0, .register 1, .pickConn 1, .peerStall 0, .sendBegin 0] = some s ∧
+      s.pc 0 = .sending 0 ∧ s.pc 1 = .picked 0 ∧
+      (∀ a ∈ [Action.register 0, .pickConn 0, .sendBegin 0, .writeDone 0, .writeFail 0, .recv 0, .timeout 0, .unregister 0],
+        (step (fun k => 100 + k) 1 s a).isNone = true) ∧
+      (∀ a ∈ [Action.register 1, .pickConn 1, .sendBegin 1, .writeDone 1, .writeFail 1, .recv 1, .timeout 1, .unregister 1],
+        (step (fun k => 100 + k) 1 s a).isNone = true) ∧
+      (step (fun k => 100 + k) 1 s (.pingBegin 0)).isNone = true ∧
+      (∃ s', step (fun k => 100 + k) 1 s (.peerDrain 0) = some s' ∧
+        (step (fun k => 100 + k) 1 s' (.writeDone 0)).isSome = true) := by
+  refine ⟨_, rfl, by decide, by decide, by decide, by decide, by decide, _, rfl, by decide⟩
 
-FAIRNESS ASSUMPTIONS (about the environment and the Go scheduler, not provable in the model): (F1) a socket whose peer
-is gone eventually rejects writes (`sockDead`); (F2) the ping goroutine keeps calling `Send` (every 3 s in the code), so
-`pingFail` is taken when enabled; (F3) a spawned `go reconnect()` is eventually scheduled (`reconnectStart`); (F4) the
-server eventually accepts a new handshake (`reconnectOk` instead of `reconnectFail` for ever). Under weak fairness for
-these four actions the path below is taken; each of them stays enabled until it (or another recovery step that makes it
-unnecessary) is taken, because only `reconnectStart`/`reconnectOk` of the same connection change the fields they test. -/
+/-- With peers that read, a call inside `Send` can always finish it: under `PeersDrain` obstacle (b) of
+`no_deadlock_client` disappears, and obstacle (a) is a goroutine that can finish. -/
+theorem sends_complete_when_peers_drain (s : State) (h : Reachable idOf nConn s) (hd : PeersDrain s) (k c : Nat)
+    (hp : s.pc k = .sending c) :
+    (∃ s', step idOf nConn s (.writeDone k) = some s' ∧ s'.pc k = .waiting ∧ (s'.conn c).writer = none) ∨
+    (∃ s', step idOf nConn s (.writeFail k) = some s' ∧ s'.pc k = .returning .sendErr ∧ (s'.conn c).writer = none) := by
+  by_cases hok : (s.conn c).sockOk = true
+  · exact Or.inl (by simp [step, hp, hok, hd c, set_apply])
+  · exact Or.inr (by simp [step, hp, hok, set_apply])
 
-/-- From EVERY reachable state — in particular after `connDrop c` — at most four steps of the connection's own threads
-(`recovery`) lead to a state in which connection `c` is `Connected`, writable and has a running reader; the steps are
-exactly those named in the fairness assumptions. -/
-theorem reconnect_bounded (s : State) (h : Reachable idOf nConn s) (c : Nat) (hu : ¬ Healthy (s.conn c)) :
-    ∃ s', run idOf nConn s (recovery (s.conn c) c) = some s' ∧ (recovery (s.conn c) c).length ≤ 4 ∧
-      Healthy (s'.conn c) ∧
-      (∀ a ∈ recovery (s.conn c) c, a ∈ [Action.sockDead c, .pingFail c, .reconnectStart c, .reconnectOk c]) ∧
-      (∀ c', c' ≠ c → s'.conn c' = s.conn c') ∧ s'.pc = s.pc ∧ s'.queries = s.queries ∧ s'.chan = s.chan := by
-  have hg := (inv_reachable idOf nConn h).g c
-  generalize hcn : s.conn c = cn at hg hu
-  obtain ⟨st, ok, rd, loops, sp, pend⟩ := cn
-  simp only at hg
+/-! ## reconnection -/
+
+/-- RECOVERABILITY (an existence statement, not liveness): from EVERY reachable state in which connection `c` is not
+healthy — in particular after `connDrop c` — at most five steps of the connection's own goroutines and its socket
+(`recovery`: the socket dies, a blocked writer gets the error and releases the mutex, a ping's Send fails, the spawned
+reconnect() runs, the handshake succeeds) lead to a state in which `c` is `Connected`, writable and has a running
+reader; nothing else changes. That these steps ARE eventually taken is the liveness theorem `reconnect_live`. -/
+theorem reconnect_recoverable (s : State) (h : Reachable idOf nConn s) (c : Nat) (hu : ¬ Healthy (s.conn c)) :
+    ∃ s', run idOf nConn s (recovery (s.conn c) c) = some s' ∧ (recovery (s.conn c) c).length ≤ 5 ∧
+      Healthy (s'.conn c) ∧ (s'.conn c).writer = none ∧
+      (∀ c', c' ≠ c → s'.conn c' = s.conn c') ∧ s'.queries = s.queries ∧ s'.chan = s.chan := by
+  have hi := inv_reachable idOf nConn h
+  have hg := hi.g c
+  have hw := hi.w c
+  have hw2 := hi.w2 c
+  generalize hcn : s.conn c = cn at hg hu hw hw2
+  obtain ⟨st, ok, cw, wr, rd, loops, sp, pend⟩ := cn
+  simp only at hg hw hw2
   cases st with
   | connecting =>
     have hl : loops = 1 := hg.2.mp rfl
     subst hl
+    have hwr : wr = none := by
+      cases wr with
+      | none => rfl
+      | some w => exact absurd (hw2 (by simp)) (by simp)
+    subst hwr
     simp only [recovery, run, step, hcn, if_true]
-    simp only [Nat.zero_lt_one, if_true, Option.some.injEq, exists_eq_left']
-    refine ⟨by simp, by simp [Healthy], by simp, ?_, trivial, trivial, trivial⟩
+    simp only [Nat.zero_lt_one, true_and, if_true, Option.some.injEq, exists_eq_left']
+    refine ⟨by simp, by simp [Healthy], by simp, ?_⟩
+    simp only [and_true]
     intro c' hne; simp [set_apply, hne]
   | connected =>
     have hl : loops = 0 := by
       have : loops ≠ 1 := fun h' => by have := hg.2.mpr h'; cases this
       omega
     subst hl
-    cases ok <;> by_cases hsp : sp > 0
-    all_goals
-      simp [recovery, run, step, hcn, hsp, set_apply, reconnectBody, Healthy]
-    all_goals
-      intro c' hne; simp [hne]
+    cases wr with
+    | none =>
+      cases ok <;> by_cases hsp : sp > 0
+      all_goals
+        simp [recovery, run, step, hcn, hsp, set_apply, reconnectBody, Healthy]
+      all_goals
+        intro c' hne; simp [hne]
+    | some w =>
+      cases w with
+      | ping =>
+        cases ok
+        all_goals
+          simp [recovery, run, step, hcn, set_apply, reconnectBody, Healthy]
+        all_goals
+          intro c' hne; simp [hne]
+      | call k =>
+        have hp : s.pc k = .sending c := (hw k).mp rfl
+        cases ok
+        all_goals
+          simp [recovery, run, step, hcn, hp, set_apply, reconnectBody, Healthy]
+        all_goals
+          intro c' hne; simp [hne]
+
+/-- LIVENESS of reconnection, with the fairness assumptions as hypotheses about the execution (predicates defined in
+`Lemmas/ClientLive.lean`), not prose. For every infinite execution `e` of the transition system from a reachable state:
+IF (F1) a `Connected` socket whose peer has closed does not stay writable for ever (`SockDies`), (F2) a write on a dead
+socket eventually returns its error (`WeakFair` for every `writeFail k` and for `pingDone c`), (F3) the ping goroutine's
+`Send` on a dead socket and a spawned `reconnect()` get the mutex whenever it is free infinitely often (`StrongFair` for
+`pingFail c` and `reconnectStart c` — sync.Mutex is starvation-free), and (F4) the server eventually completes a new
+handshake (`WeakFair` for `reconnectOk c`), THEN connection `c` is Connected, writable and read again INFINITELY OFTEN:
+after every drop — mid-request, idle, or during a reconnect — it comes back. No bound on the number of drops or on what
+other goroutines do in between is assumed. (The proof uses the persistence of each recovery step's enabledness:
+`step_status_connecting`, `step_sockDead_persists`, `step_writer_call_persists`, `step_spawned_mono`, ….) -/
+theorem reconnect_live (e : Exec idOf nConn) (c : Nat)
+    (hF1 : SockDies e c) (hF4 : WeakFair e (.reconnectOk c))
+    (hF2 : ∀ k, WeakFair e (.writeFail k)) (hF2' : WeakFair e (.pingDone c))
+    (hF3 : StrongFair e (.reconnectStart c)) (hF3' : StrongFair e (.pingFail c)) :
+    ∀ i, ∃ j, i ≤ j ∧ Healthy ((e.st j).conn c) :=
+  reconnect_live_core e c hF1 hF4 hF2 hF2' hF3 hF3'
 
 /-- … and later calls can succeed: in a reachable state where the connection the round-robin counter points at is
-healthy and its reader idle, a fresh call runs register, pickConn, send, and — once the server's answer for its id is
-delivered — returns that answer. -/
-theorem call_can_succeed (s : State) (h : Reachable idOf nConn s) (k : Nat) (b : Payload) (hk : s.pc k = .start)
-    (hc : Healthy (s.conn s.nextConn)) (hp : (s.conn s.nextConn).pending = none) :
-    ∃ s', run idOf nConn s [.register k, .pickConn k, .send k,
+healthy, its mutex free and its reader idle, and the peer reads, a fresh call runs register, pickConn, Send, and — once
+the server's answer for its id is delivered — returns that answer. -/
+theorem call_can_succeed (s : State) (h : Reachable idOf nConn s) (hn : 0 < nConn) (k : Nat) (b : Payload)
+    (hk : s.pc k = .start) (hc : Healthy (s.conn s.nextConn)) (hp : (s.conn s.nextConn).pending = none)
+    (hm : (s.conn s.nextConn).writer = none) (hd : (s.conn s.nextConn).canWrite = true) :
+    ∃ s', run idOf nConn s [.register k, .pickConn k, .sendBegin k, .writeDone k,
         .deliver s.nextConn (.answer (idOf k) (.good b)), .chanSend s.nextConn, .recv k, .unregister k] = some s' ∧
       s'.pc k = .returned (.ok b) := by
   have hi := inv_reachable idOf nConn h
   have hch : s.chan k = none := (hi.b k (hi.e k hk)).1
   obtain ⟨h1, h2, h3⟩ := hc
-  simp [run, step, hk, h1, h2, h3, hp, hch]
+  simp [run, step, hk, hn, h1, h2, h3, hp, hm, hd, hch]
 
 /-! ## the statements are not vacuous — tests on literals -/
 
@@ -329,7 +449,7 @@ theorem call_can_succeed (s : State) (h : Reachable idOf nConn s) (k : Nat) (b :
 each call returns its own payload -/
 example :
     (run (fun k => 100 + k) 1 init
-      [.register 0, .pickConn 0, .send 0, .register 1, .pickConn 1, .send 1,
+      [.register 0, .pickConn 0, .sendBegin 0, .writeDone 0, .register 1, .pickConn 1, .sendBegin 1, .writeDone 1,
        .deliver 0 (.answer 101 (.good 11)), .chanSend 0, .deliver 0 (.answer 101 (.good 99)),
        .deliver 0 (.answer 555 (.good 5)), .deliver 0 .other,
        .deliver 0 (.answer 100 (.good 10)), .chanSend 0,
@@ -339,9 +459,27 @@ example :
 /-- a malformed answer consumes the registration: the call can only time out, a later valid answer is dropped -/
 example :
     (run (fun k => 100 + k) 1 init
-      [.register 0, .pickConn 0, .send 0, .deliver 0 (.answer 100 .malformed),
+      [.register 0, .pickConn 0, .sendBegin 0, .writeDone 0, .deliver 0 (.answer 100 .malformed),
        .deliver 0 (.answer 100 (.good 10)), .timeout 0, .unregister 0]).map (fun s => s.pc 0)
       = some (.returned .timeout) := by decide
+
+/-- the fairness hypotheses of `reconnect_live` are satisfiable: the execution in which nothing but `peerDrain 0`
+ever happens (every connection stays healthy) meets all six -/
+example : ∃ e : Exec (fun k => 100 + k) 2, SockDies e 0 ∧ WeakFair e (.reconnectOk 0) ∧ (∀ k, WeakFair e (.writeFail k)) ∧
+    WeakFair e (.pingDone 0) ∧ StrongFair e (.reconnectStart 0) ∧ StrongFair e (.pingFail 0) := by
+  have hstep : step (fun k => 100 + k) 2 init (.peerDrain 0) = some init := by
+    simp only [step, init, Option.some.injEq]
+    congr
+    funext j
+    simp only [set_apply]
+    split <;> rfl
+  refine ⟨⟨fun _ => init, fun _ => .peerDrain 0, fun _ => hstep, ⟨[], rfl⟩⟩, ?_, ?_, ?_, ?_, ?_, ?_⟩
+  · intro i; exact ⟨i, Nat.le_refl i, by simp [init]⟩
+  · intro i; exact ⟨i, Nat.le_refl i, Or.inl (by simp [step, init])⟩
+  · intro k i; exact ⟨i, Nat.le_refl i, Or.inl (by simp [step, init])⟩
+  · intro i; exact ⟨i, Nat.le_refl i, Or.inl (by simp [step, init])⟩
+  · intro h; obtain ⟨j, _, hj⟩ := h 0; simp [step, init] at hj
+  · intro h; obtain ⟨j, _, hj⟩ := h 0; simp [step, init] at hj
 
 example : IdsDistinct (fun k => 100 + k) := by intro a b h; simpa using h
 
